@@ -389,7 +389,11 @@ pub fn api_case(data: &[u8]) -> api::ApiCase {
                 calls.push(match r.u8() % 8 {
                     0 | 1 => api::LfoCall::Tick(r.u16() % 400),
                     2 | 3 => api::LfoCall::FreqFrac(if r.u8() % 8 == 0 { 1.0 } else { r.unit() as f32 }),
-                    4 => api::LfoCall::Phase(if r.bool() { (r.unit() * 2000.0 - 1000.0) as f32 } else { wild_finite(&mut r) }),
+                    4 => api::LfoCall::Phase(match r.u8() % 3 {
+                        0 => (r.unit() * 2000.0 - 1000.0) as f32,
+                        1 => wild_finite(&mut r),
+                        _ => [0.99999994f32, -0.99999994, 1.0, -1.0, 0.5, 1.9999999, 16_777_216.0, 4_294_967_296.0, 4.3e9, -4.3e9][(r.u8() % 10) as usize],
+                    }),
                     5 => api::LfoCall::Reset,
                     6 => api::LfoCall::Freq([fs, 0.0, 1e-45, f32::MIN_POSITIVE][(r.u8() % 4) as usize]),
                     _ => api::LfoCall::Get(r.u8() % 5),
